@@ -543,6 +543,8 @@ fn run_history(
             },
             o => o.clone(),
         };
+        // breadcrumb: the history so far and the request about to run (its host answers unknown yet)
+        fbrh::util::crumb(&format!("{} ops={}{}{}@", head, case_ops.join(";"), if case_ops.is_empty() { "" } else { ";" }, op.show()));
         let (reply, trace) = imp.exec(&xop, &w.inos, &w.handles);
         let reply = match (&op, reply) {
             (Op::Readlink { .. }, Reply::Data(d)) => Reply::Data(canon::unexpand(&d, dirs.sent.as_bytes())),
@@ -768,6 +770,10 @@ fn main() {
     let mut out = Out::new(&outdir);
     let prop = a.get("prop").cloned().unwrap_or_else(|| "C05".into());
     let stage = a.get("stage").cloned().unwrap_or_else(|| "pt".into());
+    if stage == "pt" {
+        // every request leaves a breadcrumb: a request that never returns aborts the run after 90 s
+        fbrh::util::watchdog(90);
+    }
     let seed: u64 = a.get("seed").and_then(|s| s.parse().ok()).unwrap_or(1);
     let base = format!("/verif/.work/pthost-tmp/{}", std::process::id());
     let _ = std::fs::create_dir_all(&base);
